@@ -1025,7 +1025,7 @@ def lean_obligations():
     if not ok:
         raise InfraError("lake build failed:\n" + out[-3000:])
     thms = common.property_theorems(PROP)
-    bad = common.lean_forbidden_tokens()
+    bad = common.lean_forbidden_tokens([f"Properties.{PROP}"] if "PROP" in globals() else None)
     if bad:
         raise InfraError("forbidden tokens in Lean sources: " + "; ".join(bad[:5]))
     axioms = common.audit_axioms(f"Properties.{PROP}", thms)
